@@ -116,6 +116,7 @@ type Exec struct {
 	unwind            int
 	skipIntrinsicOnce *ssa.Function
 	afterHooks        []func()
+	uniqueTab         []uniqueEnt
 }
 
 type workItem struct {
@@ -162,6 +163,7 @@ func (ex *Exec) resetPath(prefix []Decision) {
 	ex.pc = ex.pc[:0]
 	ex.pcHash = 14695981039346656037
 	ex.pcSet = map[*Term]bool{}
+	ex.uniqueTab = nil
 	ex.model = nil
 	ex.modelMemo = nil
 	ex.pathVars = nil
